@@ -110,6 +110,10 @@ func (g *G) genAolTx() *world.TxStep {
 	if g.chance("multi", g.bias("multi", 12)) {
 		n = 2 + g.intn("nmsgs", 2)
 	}
+	if n > 1 && g.chance("chain", g.bias("chain", 60)) {
+		msgs, note := g.genChain(g.genAolMsg, n, g.chance("poison", g.bias("poison", 45)))
+		return g.wrapTx(msgs, note, true)
+	}
 	var msgs []sdk.Msg
 	var notes []string
 	for i := 0; i < n; i++ {
